@@ -93,7 +93,7 @@ class GemRig:
         while time.monotonic() < deadline:
             if not self.rig.settle(timeout):
                 return False
-            busy = [t for t in threading.enumerate() if "_ce_sender" in t.name or "_verif_worker" in t.name and not getattr(t, "parked", False)]
+            busy = [t for t in threading.enumerate() if ("_ce_sender" in t.name or "_verif_worker" in t.name) and not getattr(t, "parked", False)]
             if not busy and self.rig._quiet():
                 return True
             time.sleep(0.0003)
